@@ -230,8 +230,9 @@ func (n *networkService) AllocIP(ctx context.Context, r *rpc.AllocIPRequest) (*r
 		ResourceRequests: resourceRequests,
 	})
 	if err != nil {
+		// roll back what this request took, not what the pod holds from an earlier request
 		_ = n.eniMgr.Release(ctx, cni, &eni.ReleaseRequest{
-			NetworkResources: resp,
+			NetworkResources: notRecorded(resp, oldRes),
 		})
 		return nil, err
 	}
@@ -959,6 +960,25 @@ func parseNetworkResource(item daemon.ResourceItem) eni.NetworkResource {
 		}
 	}
 	return nil
+}
+
+// notRecorded filters out the resources the pod's stored record already names.
+func notRecorded(resp eni.NetworkResources, old daemon.PodResources) []eni.NetworkResource {
+	var result []eni.NetworkResource
+	for _, res := range resp {
+		recorded := false
+		for _, item := range res.ToStore() {
+			for _, o := range old.Resources {
+				if o.Type == item.Type && o.ENIID == item.ENIID && o.IPv4 == item.IPv4 && o.IPv6 == item.IPv6 {
+					recorded = true
+				}
+			}
+		}
+		if !recorded {
+			result = append(result, res)
+		}
+	}
+	return result
 }
 
 func extractIPs(old daemon.ResourceItem) (ipv4, ipv6 netip.Addr, eniID string) {
